@@ -403,7 +403,7 @@ def absorb(check, results, replayer=None, prefix=''):
         for a in r.get('assumptions', []):
             check.trust(a)
         if r['error'] and not r['obligations']:
-            check.obligation(prefix + r['program'] + (('[%s]' % r['arg']) if r['arg'] is not None else ''),
+            check.obligation(prefix + r['program'] + (('[%s]' % (r['arg'],)) if r['arg'] is not None else ''),
                              'undecided', detail=r['error'])
             continue
         for ob in r['obligations']:
